@@ -223,6 +223,50 @@ func Abbrev(s string) string {
 // Func looks up a function or method: Func("L/core", "NewGate"),
 // Func("L/core", "(*gateImpl).SetCount"), Func("L/rapid", "doInvoke$1").
 func (p *Program) Func(pkg, name string) *ssa.Function {
+	if fn := p.funcByDeclaredName(pkg, name); fn != nil {
+		return fn
+	}
+	// a function recognised as renamed carries its old name in the SSA program but is filed under its
+	// new name in the package: look it up by the name it carries
+	base, anon := name, ""
+	if i := strings.Index(name, "$"); i >= 0 {
+		base, anon = name[:i], name[i:]
+	}
+	want := Expand(pkg) + "." + base
+	if strings.HasPrefix(base, "(") {
+		if end := strings.Index(base, ")."); end > 0 {
+			recv := base[1:end]
+			star := ""
+			if strings.HasPrefix(recv, "*") {
+				star, recv = "*", recv[1:]
+			}
+			want = "(" + star + Expand(pkg) + "." + recv + ")" + base[end+1:]
+		}
+	}
+	for _, fn := range p.RepoFns {
+		if fn.Parent() == nil && fn.String() == want {
+			if anon == "" {
+				return fn
+			}
+			for _, part := range strings.Split(anon[1:], "$") {
+				var next *ssa.Function
+				for _, a := range fn.AnonFuncs {
+					if strings.HasSuffix(a.Name(), "$"+part) {
+						next = a
+					}
+				}
+				if next == nil {
+					return nil
+				}
+				fn = next
+			}
+			return fn
+		}
+	}
+	return nil
+}
+
+func (p *Program) funcByDeclaredName(pkg, name string) *ssa.Function {
 	sp := p.Pkg(pkg)
 	if sp == nil {
 		return nil
